@@ -378,6 +378,12 @@ def run_ascii(ctx):
                        and (n, 0) in full and (n == 0 or (n - 1, 1) in full) and (n != 0 or all(j != 1 for _, j in cells)))
                 ctx.count("complete third-core outlines satisfying the hypotheses of third_write_read_id_partial" if hyp else
                           "complete third-core outlines OUTSIDE the hypotheses of third_write_read_id_partial")
+            if kind in ("full", "tips"):
+                hexok = all(-n <= i <= n and -n <= j <= n and -n <= i + j <= n for i, j in cells)
+                anchors = [(n, 0), (n, -n)] + ([(0, -n)] + ([(n - 1, 1)] if n >= 1 else []) if kind == "full" else [])
+                hyp = hexok and all(c in full for c in anchors)
+                ctx.count(f"complete {kind} outlines satisfying the hypotheses of {kind}_write_read_id_partial" if hyp else
+                          f"complete {kind} outlines OUTSIDE the hypotheses of {kind}_write_read_id_partial")
             if res and res[0] != "ok":
                 ctx.fail(f"ascii-complete-map-not-drawn:{kind}", "a complete map without holes is drawn and reads back", {"kind": kind, "rings": n})
             if res and res[1]:
@@ -428,8 +434,8 @@ def run_ascii(ctx):
 SPECS = ["A1", "B2", "C3"]
 KINDS_BAD = ["unknown-specifier", "unequal-heights", "unequal-xs", "unequal-mesh", "unequal-matmod", "cyclic-link",
              "unknown-link-target", "overlapping-solids", "solids-exceed-block", "duplicate-component", "duplicate-block-name",
-             "duplicate-specifier", "duplicate-grid-location"]
-BLOCK_WORDS = ["fuel", "shield", "reflector", "plenum", "duct", "control"]
+             "duplicate-specifier", "duplicate-grid-location", "conflicting-mult"]
+BLOCK_WORDS = ["fuel", "shield", "reflector", "plenum", "duct", "control", "grid plate", "shield block", "load pad", "gap1"]
 NUCLIDE_FLAGS = """nuclide flags:
     U235: {burn: false, xs: true}
     U238: {burn: false, xs: true}
@@ -683,16 +689,54 @@ def pin_cells(pg):
     return cells
 
 
+def known_flags():
+    from armi.reactor.flags import Flags
+    return sorted(n for n in dir(Flags) if n.isupper() and isinstance(getattr(Flags, n), Flags))
+
+
+def flag_words(f):
+    from armi.reactor.flags import Flags
+    return sorted(Flags.toString(f).split()) if int(f) else []
+
+
+def tilde(s):
+    return s.replace(" ", "~")
+
+
+PHRASES = [("GRID PLATE", ["GRID_PLATE"]), ("GRID", ["GRID_PLATE"]), ("INLET NOZZLE", ["INLET_NOZZLE"]), ("NOZZLE", ["INLET_NOZZLE"]),
+           ("LOAD PAD", ["LOAD_PAD"]), ("HANDLING SOCKET", ["HANDLING_SOCKET"]), ("GUIDE TUBE", ["GUIDE_TUBE"]),
+           ("FISSION CHAMBER", ["FISSION_CHAMBER"]), ("SOCKET", ["HANDLING_SOCKET"]), ("SHIELD BLOCK", ["SHIELD_BLOCK"]),
+           ("SHIELDBLOCK", ["SHIELD_BLOCK"]), ("CORE BARREL", ["CORE_BARREL"]), ("INNERDUCT", ["INNER", "DUCT"]),
+           ("GAP1", ["GAP", "A"]), ("GAP2", ["GAP", "B"]), ("GAP3", ["GAP", "C"]), ("GAP4", ["GAP", "D"]), ("GAP5", ["GAP", "E"]),
+           ("LINER1", ["LINER", "A"]), ("LINER2", ["LINER", "B"])]
+
+
 def flags_of_name(name):
-    """Independent reading of 'flags from names': every alphabetic word that names a flag contributes it."""
+    """Independent reading of 'flags from names' (the documented rule): multi-word phrases / aliases first, then every
+    word that names a flag, exactly or after dropping its digits, contributes it; other words are ignored."""
     from armi.reactor.flags import Flags
     f = Flags(0)
-    for w in name.upper().split():
-        if w.isalpha():
-            try:
-                f |= Flags[w]
-            except KeyError:
-                pass
+    words = name.upper().split()
+    for phrase, fl in PHRASES:
+        ph = phrase.split()
+        k, hit = 0, False
+        while k + len(ph) <= len(words):
+            if words[k:k + len(ph)] == ph:
+                del words[k:k + len(ph)]
+                hit = True
+            else:
+                k += 1
+        if hit:
+            for x in fl:
+                f |= Flags[x]
+    for w in words:
+        for cand in (w, "".join(ch for ch in w if not ch.isdigit())):
+            if cand:
+                try:
+                    f |= Flags[cand]
+                    break
+                except KeyError:
+                    pass
     return f
 
 
@@ -775,6 +819,11 @@ def check_reactor(ctx, doc, r, contents, tag, B):
         B.send("stack " + common.ratlist(ad["height"]),
                "[" + ",".join(f"({common.rat(b.p.zbottom)},{common.rat(b.p.ztop)})" for b in a) + "]", c2)
         B.send(f"consistent {len(ad['blocks'])} {len(ad['height'])} {len(ad['xs'])} {len(ad['mesh'])}", "T", c2)
+        B.send("blocks [" + ",".join(tilde(x) for x in ad["blocks"]) + "] " + common.ratlist(ad["height"]) + " [" +
+               ",".join(ad["xs"]) + "] [" + ",".join(str(x) for x in ad["mesh"]) + "]",
+               "[" + ",".join(f"{tilde(b.getType())}|{common.rat(b.getHeight())}|{b.p.xsType}|{int(b.p.axMesh)}" for b in a) + "]", c2)
+        for b, bt in zip(a, ad["blocks"]):
+            B.send("flags [" + ",".join(known_flags()) + "] " + tilde(bt), "[" + ",".join(flag_words(b.p.flags)) + "]", {**c2, "type": bt})
         z = Fraction(0)
         for k, (b, h, xs, bt) in enumerate(zip(a, ad["height"], ad["xs"], ad["blocks"])):
             c3 = {**c2, "block": k, "type": bt}
@@ -797,6 +846,9 @@ def check_reactor(ctx, doc, r, contents, tag, B):
                         continue
                     want = sorted(c for c, v in pcells.items() if v in [str(x) for x in lids])
                     cd["mult"] = float(len(want))        # the document's multiplicity: positions carrying one of the ids
+                    if cn in by_name:
+                        B.send("mult [" + ",".join(f"{i}:{j}:{v}" for (i, j), v in pcells.items()) + "] [" +
+                               ",".join(str(x) for x in lids) + "] _", common.rat(by_name[cn].getDimension("mult")), {**c3, "component": cn})
                     if cn in by_name:
                         try:
                             have = sorted(tuple(int(x) for x in loc.indices[:2]) for loc in by_name[cn].spatialLocator)
@@ -978,8 +1030,8 @@ def run_blueprints(ctx):
                      sample={"tag": tag, "assemblies": len(r.core), "blocks": sum(len(a) for a in r.core)} if t < 3 else None)
         # ---- inconsistent documents must be refused
         for t in range(ctx.pick(16, 160)):
-            doc = gen_doc(rng, geom=rng.choice(["hex", "hex_corners_up"]))
             kind = KINDS_BAD[t % len(KINDS_BAD)]
+            doc = gen_doc(rng, "hex", "map") if kind == "conflicting-mult" else gen_doc(rng, geom=rng.choice(["hex", "hex_corners_up"]))
             mutate = None
             an = rng.choice(list(doc["assems"]))
             a = doc["assems"][an]
@@ -1010,6 +1062,16 @@ def run_blueprints(ctx):
             elif kind == "solids-exceed-block":
                 blk = doc["blocks"][bt]
                 blk["fuel"]["mult"] = 5000.0
+            elif kind == "conflicting-mult":
+                # a lattice component that declares a multiplicity other than 1 or its number of lattice positions
+                bt = list(doc["blocks"])[0]
+                for x in doc["assems"].values():
+                    x["blocks"][0] = bt
+                    x.pop("matmods", None)
+                pg = doc["pingrids"][doc["blockgrid"][bt]]
+                npos = sum(1 for v in pg["cells"].values() if v == 1)
+                doc["blocks"][bt]["fuel"]["mult"] = float(npos + 2)
+                conflict = (pg, npos + 2)
             elif kind == "duplicate-block-name":
                 mutate = "duplicate-block-name"
             elif kind == "duplicate-specifier":
@@ -1036,6 +1098,12 @@ def run_blueprints(ctx):
                        ",".join(f"{i}:{j}:{s}" for (i, j), s in doc["contents"].items()) + "]", "reject" if refused else "accepted", {"tag": tag})
             elif kind in ("unequal-heights", "unequal-xs", "unequal-mesh"):
                 B.send(f"consistent {len(a['blocks'])} {len(a['height'])} {len(a['xs'])} {len(a['mesh'])}", "F" if refused else "T", {"tag": tag})
+                B.send("blocks [" + ",".join(tilde(x) for x in a["blocks"]) + "] " + common.ratlist(a["height"]) + " [" +
+                       ",".join(a["xs"]) + "] [" + ",".join(str(x) for x in a["mesh"]) + "]", "reject" if refused else "accepted", {"tag": tag})
+            elif kind == "conflicting-mult":
+                pg, decl = conflict
+                B.send("mult [" + ",".join(f"{i}:{j}:{v}" for (i, j), v in pg["cells"].items()) + "] [1] " + str(decl),
+                       "reject" if refused else "accepted", {"tag": tag})
             elif kind in ("cyclic-link", "unknown-link-target"):
                 comps = doc["blocks"][bt]
                 req = []
@@ -1159,6 +1227,42 @@ def run_grids(ctx):
     grid_roundtrip(ctx, "cart", None, {(0, 0): "A", (1, 0): "B", (0, 2): "C", (1, 2): "D"}, "cart-empty-interior-row-list")
     for kind in ("tips", "full"):
         grid_roundtrip(ctx, kind, None, {c: "P" for c in hex_cells(2) if hexdist(*c) in (0, 2)}, "rings-0-and-2-only")
+
+
+# =========================================================================== flags from names
+def run_flags(ctx):
+    """Flags.fromStringIgnoreErrors on generated names vs the Lean word-splitting model (and the strict variant's verdict)."""
+    from armi.reactor.flags import Flags
+    rng = ctx.rng
+    known = known_flags()
+    phrases = ["grid plate", "grid", "inlet nozzle", "nozzle", "load pad", "handling socket", "guide tube", "fission chamber",
+               "socket", "shield block", "shieldblock", "core barrel", "innerduct", "gap1", "gap2", "gap3", "gap4", "gap5",
+               "liner1", "liner2", "liner"]
+    junk = ["bogus", "x9", "12", "7", "fuelish", "b10", "b10x", "plate", "pad", "a1", "3a"]
+    B = BP(ctx)
+    for t in range(ctx.pick(400, 6000)):
+        parts = []
+        for _ in range(rng.randint(1, 5)):
+            r = rng.random()
+            w = rng.choice(known).lower() if r < 0.5 else rng.choice(phrases) if r < 0.75 else rng.choice(junk)
+            if rng.random() < 0.25:
+                w = w + str(rng.randint(0, 12))
+            if rng.random() < 0.2:
+                w = w.upper() if rng.random() < 0.5 else w.title()
+            parts.append(w)
+        name = (" " * rng.randint(1, 2)).join(parts)
+        got = flag_words(Flags.fromStringIgnoreErrors(name))
+        B.send("flags [" + ",".join(known) + "] " + tilde(name), "[" + ",".join(got) + "]", {"name": name})
+        ctx.case(("flags", name), nontrivial=True, sample={"name": name, "flags": got} if t == 0 else None)
+        # oracle: the strict parser accepts exactly the names the lenient one reads without dropping a word
+        try:
+            strict = flag_words(Flags.fromString(name))
+            if strict != got:
+                fail_few(ctx, "flags-strict-vs-lenient", "the strict and the error-ignoring flag parsers agree on names both accept",
+                         {"name": name}, observed=strict, expected=got)
+        except Exception:
+            pass
+    B.flush("Blueprint model (flagsOfName) vs Flags.fromStringIgnoreErrors")
 
 
 # =========================================================================== custom isotopics
@@ -1391,6 +1495,7 @@ def run(ctx):
         run_ascii(ctx)
         run_grids(ctx)
         run_blueprints(ctx)
+        run_flags(ctx)
         run_isotopics(ctx)
 
 
